@@ -103,6 +103,9 @@ R.append((['C17','C11'], 'extract_helper_worker_start', 'worker.go', lambda s: r
 		go x.do(fn)
 """), "func (x *Worker) wait() {", "func newSignal() chan struct{} { return make(chan struct{}) }\n\nfunc (x *Worker) wait() {")))
 
+R.append((['C14','C11'], 'insert_noop_closure_workers_worker', 'workers.go', lambda s: rep(s, "func (w *Workers) worker() {\n", "func (w *Workers) worker() {\n\tdefer func() {}() // refactor: placeholder hook\n")))
+R.append((['C04','C12','C11'], 'insert_closure_buffer_cleanup', 'buffer.go', lambda s: rep(s, "	// close the buffer on shutdown (e.g. panic in cleaner)\n	defer b.Close()\n", "	trace := func(string) {} // refactor: tracing hook\n	trace(\"cleanup started\")\n	// close the buffer on shutdown (e.g. panic in cleaner)\n	defer b.Close()\n")))
+
 custom = {}
 def reg(name):
     def d(f): custom[name] = f; return f
